@@ -165,3 +165,56 @@ Lemma c08_span_second_half_cut :
     = [[240;159;153;130]; []; [98]; [99]; [32]; [32]] /\
   trig (tmain (fst (run_hist wc_ex false (init_term 6 1) c08_whole))) = trSecondHalf.
 Proof. vm_compute. repeat split; reflexivity. Qed.
+
+(* ---------- C10 for the span buffer: coalescing keeps the set of announced cells ---------- *)
+From Termemu Require Import NotifyProofs.
+
+Lemma announced_cons e l x y : announced (e :: l) x y <-> covers e x y \/ announced l x y.
+Proof.
+  unfold announced. split.
+  - intros (e' & [<-|Hin] & Hc); [left; exact Hc|right; exists e'; auto].
+  - intros [Hc|(e' & Hin & Hc)]; [exists e; split; [left; reflexivity|exact Hc]|exists e'; split; [right; exact Hin|exact Hc]].
+Qed.
+Lemma announced_nil x y : ~ announced [] x y.
+Proof. intros (e & [] & _). Qed.
+
+Theorem log_eq_announced a b : log_eq a b -> forall x y, announced a x y <-> announced b x y.
+Proof.
+  induction 1 as [l|a b _ IH|a b c _ IH1 _ IH2|a a' b b' _ IH1 _ IH2|cx' cy' mid x1 x2 x1' x2' y0 Hx]; intros x y.
+  - reflexivity.
+  - symmetry. apply IH.
+  - rewrite IH1. apply IH2.
+  - rewrite !announced_app, IH1, IH2. reflexivity.
+  - rewrite !announced_cons, !announced_app, !announced_cons. cbn [covers].
+    pose proof (announced_nil x y) as Hn.
+    split.
+    + intros [[]|[Hm|[Hc|[[]|[Hc|Hc]]]]]; [right; left; exact Hm| | |contradiction];
+        right; right; left; lia.
+    + intros [[]|[Hm|[Hc|Hc]]]; [right; left; exact Hm| |contradiction].
+      destruct (Z_lt_ge_dec x x2); [right; right; right; right; left; lia|right; right; left; lia].
+Qed.
+
+Section C10Span.
+  Variable wc : Z -> Z.
+  Hypothesis Hmb : wc_multibyte wc.
+
+  (* along every history without a finding mark the span terminal announces exactly the cells the cell terminal announces *)
+  Theorem span_hist_announced w h ops : 1 <= w -> 1 <= h -> hist_ok ops ->
+    tz (fst (run_hist wc false (init_term w h) ops)) ->
+    forall x y, announced (slog (fst (fst (s_run_hist wc (s_init_term w h) ops)))) x y
+            <-> announced (tlog (fst (run_hist wc false (init_term w h) ops))) x y.
+  Proof.
+    intros Hw Hh Hok Hz. destruct (span_simulates_cells_from wc Hmb (Some (max_width (s_active (s_init_term w h)))) w h ops Hw Hh Hok Hz) as (_ & L & _).
+    apply log_eq_announced. exact L.
+  Qed.
+
+  (* the same for one operation from related states, with the logs cleared before it (what the checks observe) *)
+  Theorem span_step_announced st t pend mw o : hop_ok o -> STInv wc st -> Rel wc st t ->
+    tz (fst (hstep wc false (clear_io t, pend) o)) ->
+    forall x y, announced (slog (fst (fst (s_hstep wc (s_clear_io st, pend, mw) o)))) x y
+            <-> announced (tlog (fst (hstep wc false (clear_io t, pend) o))) x y.
+  Proof.
+    intros Ho Hi Hr Hz. destruct (scase_step wc Hmb st t pend mw o Ho Hi Hr Hz) as (_ & (_ & L) & _).
+    apply log_eq_announced. exact L.
+  Qed.
+End C10Span.
